@@ -18,8 +18,5 @@ def run(ctx, rep):
         crate2 = ctx.mir('codegen-sm')['logos_codegen']
         cg.rule_sites(rep, crate2, want=('C10',))
     rep.trusted += ['rustc nightly MIR', 'engines/mirfacts', 'regex-syntax: escape(), (?i) semantics, Hir::literal']
-    try:
-        from props import gen
-        gen.rules_c10(ctx, rep)
-    except ImportError:
-        pass
+    from props import gen
+    gen.rules_c10(ctx, rep)
